@@ -1311,6 +1311,13 @@ func c01R20(ic *IC, r *Report) {
 					if se, ok := unparen(x.Fun).(*ast.SelectorExpr); ok && se.Sel.Name == "Set" && len(x.Args) == 1 {
 						stored = identOf(x.Args[0])
 					}
+					// a store function of the generator: store(f, v)
+					if fid := identOf(x.Fun); fid != nil && len(x.Args) == 2 {
+						if sg, ok := info.TypeOf(fid).Underlying().(*types.Signature); ok && sg.Params().Len() == 2 && sg.Results().Len() == 0 &&
+							isNamedPtr(sg.Params().At(0).Type(), "frame") && types.TypeString(sg.Params().At(1).Type(), nil) == "reflect.Value" {
+							stored = identOf(x.Args[1])
+						}
+					}
 				case *ast.AssignStmt:
 					for i, l := range x.Lhs {
 						if _, ok := unparen(l).(*ast.IndexExpr); ok && i < len(x.Rhs) {
